@@ -885,6 +885,35 @@ def gate_family():
     return mods
 
 
+def byte_order_family():
+    """Seed-independent: modules with NO byte order in scope (or an explicit "Null") whose fields hold bits blocks of
+    one, two, four or a run-time number of bytes.  The front end may only let a field go without a real byte order
+    when it is exactly one byte long: the runtime's NullByteOrderer static_asserts kBits == 8.  Whatever the front
+    end accepts here is instantiated and has to compile."""
+    mods = []
+    shapes = []
+    for n in ("1", "2", "4", "hd"):
+        shapes.append(("anonymous-bits:%s" % n, "  1 [+%s]  bits:\n    0 [+3]  UInt  aa\n    3 [+4]  UInt  bb\n" % n, "", ["aa", "bb"]))
+        shapes.append(("anonymous-bits-null:%s" % n,
+                       '  1 [+%s]  bits:\n    [byte_order: "Null"]\n    0 [+3]  UInt  aa\n    3 [+4]  UInt  bb\n' % n, "", ["aa", "bb"]))
+    for n in ("1", "2"):
+        shapes.append(("named-bits:%s" % n, "  1 [+%s]  Nib  nn\n" % n, "bits Nib:\n  0 [+3]  UInt  lo\n  3 [+%d]  UInt  hi\n" % (5 if n == "1" else 13), []))
+    shapes.append(("uint-null:2", '  1 [+2]  UInt  ww\n    [byte_order: "Null"]\n', "", ["ww"]))
+    shapes.append(("uint-none:2", "  1 [+2]  UInt  ww\n", "", ["ww"]))
+    shapes.append(("uint-none:1", "  1 [+1]  UInt  ww\n", "", ["ww"]))
+    for label, body, pre, ints in shapes:
+        text = pre + "struct Foo:\n  0 [+1]  UInt  hd\n" + body
+        fs = [("hd", "uint")] + [(n, "uint") for n in ints]
+        mods.append(dict(
+            files={"m.emb": text}, main="m.emb", namespace=["emboss_generated_code"],
+            features=["byte-order-family:" + label],
+            scopes=[], skip_scope_model=True,
+            structs=[dict(name="Foo", cpp=["Foo"], params=[], size=8, fields=[dict(name=n, cls=c) for n, c in fs], nested=False,
+                          dynamic=("hd]" in body))],
+            enums=[]))
+    return mods
+
+
 def corpus_modules():
     return [json.load(open(p)) for p in sorted(glob.glob(os.path.join(fw.VERIF, "corpus", "C07", "*.json")))]
 
@@ -988,5 +1017,5 @@ def _run_check(ctx):
     macros = gen_names.system_macros(gen_names.STANDARDS)
     ctx.extra["system_macros_not_reserved"] = len([m for m in macros if m not in reserved and
                                                     (gen_names.SHOUTY_RE.match(m) or gen_names.SNAKE_RE.match(m))])
-    mods = corpus_modules() + gate_family() + generate(ctx, 150 if ctx.thorough() else 10, reserved, macros)
+    mods = corpus_modules() + gate_family() + byte_order_family() + generate(ctx, 150 if ctx.thorough() else 10, reserved, macros)
     run_modules(ctx, mods)
